@@ -5,7 +5,7 @@
     source are regenerated into Gen/FsWalk_gen.v on every run and the premises [backend_keys_ok], [walk_ok] (and
     the chain parameters) are discharged for them by kernel-checked instance obligations in checks/c19.py. *)
 From Coq Require Import List NArith Bool Permutation.
-From SV Require Import SM.FsChain SM.FsChainProofs SM.FsChainRel SM.FsChainWitness SM.FsChainRaw SM.FsChainCompose SM.FsChainComplete SM.FsChainNorm.
+From SV Require Import SM.FsChain SM.FsChainProofs SM.FsChainRel SM.FsChainWitness SM.FsChainRaw SM.FsChainCompose SM.FsChainComplete SM.FsChainNorm SM.FsChainForms SM.FsChainFormsProofs.
 Import ListNotations.
 Open Scope N_scope.
 
@@ -343,3 +343,59 @@ Theorem c19_chain_get_variant : forall ms q q',
   Forall sound_member ms -> clean_name q = true -> clean_name q' = true -> nkey q = nkey q' ->
   chain_get ms q = chain_get ms q'.
 Proof. exact chain_get_variant. Qed.
+
+(** ** Round 3: every public lookup form; the bytes handed out. *)
+
+(** [name in chain] ([_file_exists]): inherited from [FileSystem] it tries [_get_file]; an override that loops over the
+    members, joins the caller's name with each member's own prefix (slashes converted or not, the join skipped for
+    an empty prefix or not) and asks the member's own [_file_exists] answers exactly when [chain[name]] finds a file
+    - for every chain: any ordering, restricted members that miss before members that hit.  [open_bin(name)],
+    [open_str(name)], [chain[name]] and [iter(chain)] are only accepted by the translator as delegations to
+    [_get_file] / [walk_folder('')] ([chain_open]). *)
+Theorem c19_chain_exists_agrees : forall em ms q,
+  exists_mode_ok em = true -> Forall xmember_ok ms ->
+  chain_exists em ms q = is_some (chain_get (map x_base ms) q).
+Proof. exact chain_exists_agrees. Qed.
+(** Members built from backends of today's form satisfy the premise. *)
+Theorem c19_chain_exists_agrees_backends : forall em ms q,
+  exists_mode_ok em = true ->
+  Forall (fun m => exists b fs p, m = xmember_of b fs p /\ backend_keys_norm b = true /\ clean_fs fs = true) ms ->
+  chain_exists em ms q = is_some (chain_get (map x_base ms) q)
+  /\ is_some (chain_open (map x_base ms) q) = is_some (chain_get (map x_base ms) q).
+Proof. exact chain_exists_agrees_backends. Qed.
+(** A loop that re-assigns the name it joins (seeded c19_3) asks the members after a restricted one for the wrong
+    name: [chain["x"]] finds the file, ["x" in chain] says no. *)
+Theorem c19_chain_exists_carried_name_refuted :
+  exists_mode_ok (ExLoop true true [OSlash]) = false
+  /\ chain_get (map x_base carry_witness) [120] = Some ([120], [1])
+  /\ chain_exists (ExLoop true true [OSlash]) carry_witness [120] = false
+  /\ chain_exists (ExLoop false true [OSlash]) carry_witness [120] = true
+  /\ chain_exists ExViaGet carry_witness [120] = true
+  /\ Forall xmember_ok carry_witness.
+Proof. exact chain_exists_carried_refuted. Qed.
+
+(** "Return the same bytes": what the VPK backend's [open_bin]/[open_str] read is an expression over the [FileInfo]
+    (translated from the source).  One recognised as whole ([FileInfo.read()], or the preload only under a test that
+    there is no rest) yields the stored bytes for every split between preload and rest and for both homes of the rest:
+    preload only, directory tail, numbered archive, single-file VPK ... *)
+Theorem c19_vpk_content_whole_all_placements : forall c limit in_dir data,
+  cexpr_whole false c = true -> ceval c (vf_place limit in_dir data) = data.
+Proof. exact ceval_whole_all_placements. Qed.
+(** ... so the VPK backend returns, for every query string, the bytes every other backend of today's form returns. *)
+Theorem c19_vpk_open_same_bytes : forall c limit in_dir b1 b2 fs q,
+  cexpr_whole false c = true -> backend_keys_norm b1 = true -> backend_keys_norm b2 = true -> clean_fs fs = true ->
+  open_bytes c limit in_dir b1 fs q = option_map snd (open_ b2 fs q)
+  /\ open_bytes c limit in_dir b1 fs q = option_map snd (lookup b2 fs q).
+Proof. exact open_bytes_same. Qed.
+(** Reading the preload alone whenever the file lives in the directory file (seeded c19_4) drops the directory tail. *)
+Theorem c19_vpk_preload_shortcut_refuted :
+  let c := CIfDir CPreload CRead in
+  cexpr_whole false c = false
+  /\ ceval c (vf_place 2 true [1; 2; 3]) = [1; 2]
+  /\ ceval c (vf_place 2 false [1; 2; 3]) = [1; 2; 3]
+  /\ ceval c (vf_place 3 true [1; 2; 3]) = [1; 2; 3]
+  /\ ceval CRead (vf_place 2 true [1; 2; 3]) = [1; 2; 3]
+  /\ cexpr_whole false (CIfNoTail CPreload CRead) = true
+  /\ open_bytes c 2 true fixed_zip [([120], [1; 2; 3])] [120] = Some [1; 2]
+  /\ option_map snd (open_ fixed_zip [([120], [1; 2; 3])] [120]) = Some [1; 2; 3].
+Proof. exact ceval_preload_shortcut_refuted. Qed.
